@@ -1,6 +1,7 @@
 import PyndlModel.Activation
 import PyndlProofs.RW
 import PyndlProofs.Continue
+import PyndlProofs.NdlContinue
 
 set_option linter.unusedSectionVars false
 set_option linter.unusedSimpArgs false
@@ -106,5 +107,257 @@ theorem activationMatrix_append (p : DupPolicy) (ig : Bool) (w : LW R) (xs ys : 
           simp only [h3, Except.ok.injEq] at ha
           subst ha
           simp [ih r h3]
+
+/-! ## the whole of `activation()` on a labelled matrix -/
+
+/-- the cues of an event that CONTRIBUTE to its activations: what the duplicate
+    policy (`True`: each cue once; `False`: with multiplicity; `None`: the cues
+    themselves — a repeated cue raises) and `ignore_missing_cues` (cues that are
+    no label of the matrix are dropped; without it they raise) leave -/
+def contribCues (p : DupPolicy) (labels cues : List String) : List String :=
+  (match p with
+    | .dedup => dedupKeepFirst cues
+    | _ => cues).filter (fun c => labels.contains c)
+
+/-- what `activation()` raises for ONE event (activation.py:72-95; the events
+    are consumed in order, per event the duplicate check comes before the cue
+    lookup): `ValueError` for a repeated cue under `remove_duplicates=None`,
+    `KeyError` for a cue that is no label of the matrix unless
+    `ignore_missing_cues`; `none` = the event is accepted -/
+def actEventErr (p : DupPolicy) (ig : Bool) (labels cues : List String) : Option Err :=
+  if p = .error ∧ hasDup cues = true then some .value
+  else if ig = false ∧ cues.any (fun c => !labels.contains c) = true then some .key
+  else none
+
+theorem any_not_contains_dedup (labels cues : List String) :
+    (dedupKeepFirst cues).any (fun c => !labels.contains c) = cues.any (fun c => !labels.contains c) := by
+  rw [Bool.eq_iff_iff]
+  simp only [List.any_eq_true]
+  constructor
+  · rintro ⟨c, hc, h⟩; exact ⟨c, (mem_dedupKeepFirst cues c).mp hc, h⟩
+  · rintro ⟨c, hc, h⟩; exact ⟨c, (mem_dedupKeepFirst cues c).mpr hc, h⟩
+
+/-- one event of `activationMatrix`: the error of `actEventErr`, or the column
+    of the contributing cues -/
+theorem actEvent_spec (p : DupPolicy) (ig : Bool) (w : LW R) (cues : List String) :
+    (match actCues p cues with
+      | .error e => (.error e : Except Err (List R))
+      | .ok cs =>
+        match cueIndices ig w.cues cs with
+        | .error e => .error e
+        | .ok idx => .ok (actColumn w idx))
+      = match actEventErr p ig w.cues cues with
+        | some e => .error e
+        | none => .ok (actColumn w ((contribCues p w.cues cues).map (w.cues.idxOf ·))) := by
+  unfold actEventErr contribCues
+  cases p with
+  | error =>
+    by_cases hd : hasDup cues = true
+    · simp [actCues, hd]
+    · simp only [actCues, hd, if_false, Bool.false_eq_true, and_false, true_and, cueIndices_spec]
+      generalize cues.any (fun c => !w.cues.contains c) = b
+      cases b <;> cases ig <;> simp
+  | dedup =>
+    simp only [actCues, cueIndices_spec, any_not_contains_dedup, reduceCtorEq, false_and, if_false]
+    generalize cues.any (fun c => !w.cues.contains c) = b
+    cases b <;> cases ig <;> simp
+  | keep =>
+    simp only [actCues, cueIndices_spec, reduceCtorEq, false_and, if_false]
+    generalize cues.any (fun c => !w.cues.contains c) = b
+    cases b <;> cases ig <;> simp
+
+theorem activationMatrix_cons (p : DupPolicy) (ig : Bool) (w : LW R) (cues : List String)
+    (rest : List (List String)) :
+    activationMatrix p ig w (cues :: rest)
+      = match actEventErr p ig w.cues cues with
+        | some e => .error e
+        | none =>
+          match activationMatrix p ig w rest with
+          | .error e => .error e
+          | .ok r => .ok (actColumn w ((contribCues p w.cues cues).map (w.cues.idxOf ·)) :: r) := by
+  have h := actEvent_spec p ig w cues
+  simp only [activationMatrix]
+  cases h1 : actCues p cues with
+  | error e =>
+    rw [h1] at h
+    simp only at h
+    cases h2 : actEventErr p ig w.cues cues with
+    | some e' => rw [h2] at h; simp only [Except.error.injEq] at h ⊢; exact h
+    | none => rw [h2] at h; simp only at h; cases h
+  | ok cs =>
+    rw [h1] at h
+    simp only at h ⊢
+    cases h3 : cueIndices ig w.cues cs with
+    | error e =>
+      rw [h3] at h
+      simp only at h ⊢
+      cases h2 : actEventErr p ig w.cues cues with
+      | some e' => rw [h2] at h; simp only [Except.error.injEq] at h ⊢; exact h
+      | none => rw [h2] at h; simp only at h; cases h
+    | ok idx =>
+      rw [h3] at h
+      simp only at h ⊢
+      cases h2 : actEventErr p ig w.cues cues with
+      | some e' => rw [h2] at h; simp only at h; cases h
+      | none =>
+        rw [h2] at h
+        simp only [Except.ok.injEq] at h ⊢
+        rw [h]
+        cases activationMatrix p ig w rest <;> rfl
+
+/-- **`activation()` succeeds iff every event is accepted**, and then returns
+    one column per event: that of its contributing cues -/
+theorem activationMatrix_ok_of (p : DupPolicy) (ig : Bool) (w : LW R) (evs : List (List String))
+    (h : ∀ cues ∈ evs, actEventErr p ig w.cues cues = none) :
+    activationMatrix p ig w evs
+      = .ok (evs.map (fun cues => actColumn w ((contribCues p w.cues cues).map (w.cues.idxOf ·)))) := by
+  induction evs with
+  | nil => rfl
+  | cons cues rest ih =>
+    rw [activationMatrix_cons, h cues (by simp), ih (fun c hc => h c (by simp [hc]))]
+    rfl
+
+/-- **the first rejected event decides**: all events before it accepted, the
+    event itself rejected with `e` ⇒ `activation()` raises `e`, whatever follows -/
+theorem activationMatrix_error_of (p : DupPolicy) (ig : Bool) (w : LW R) (xs : List (List String))
+    (bad : List String) (ys : List (List String)) (e : Err)
+    (hxs : ∀ cues ∈ xs, actEventErr p ig w.cues cues = none)
+    (hbad : actEventErr p ig w.cues bad = some e) :
+    activationMatrix p ig w (xs ++ bad :: ys) = .error e := by
+  induction xs with
+  | nil => rw [List.nil_append, activationMatrix_cons, hbad]
+  | cons cues rest ih =>
+    rw [List.cons_append, activationMatrix_cons, hxs cues (by simp), ih (fun c hc => hxs c (by simp [hc]))]
+
+theorem activationMatrix_ok_accepts (p : DupPolicy) (ig : Bool) (w : LW R) (evs : List (List String))
+    (M : List (List R)) (h : activationMatrix p ig w evs = .ok M) :
+    ∀ cues ∈ evs, actEventErr p ig w.cues cues = none := by
+  induction evs generalizing M with
+  | nil => intro c hc; cases hc
+  | cons cues rest ih =>
+    rw [activationMatrix_cons] at h
+    cases h2 : actEventErr p ig w.cues cues with
+    | some e => rw [h2] at h; cases h
+    | none =>
+      rw [h2] at h
+      simp only at h
+      cases h3 : activationMatrix p ig w rest with
+      | error e => rw [h3] at h; cases h
+      | ok r =>
+        intro c hc
+        rcases List.mem_cons.mp hc with rfl | hc
+        · exact h2
+        · exact ih r h3 c hc
+
+theorem contribCues_mem (p : DupPolicy) (labels cues : List String) :
+    ∀ c ∈ contribCues p labels cues, c ∈ labels := by
+  intro c hc
+  unfold contribCues at hc
+  have := (List.mem_filter.mp hc).2
+  simpa using this
+
+/-- **`activationMatrix` = cue-wise sums of weights.**  If the model of
+    `activation()` returns the matrix `M` (rows = events, columns = outcomes),
+    then `M` has one row per event, every event was accepted (no repeated cue
+    under `None`, no unknown cue unless ignored), every row has one entry per
+    outcome, and entry `(k, i)` is the sum of the weights of outcome `i` over the
+    cues of event `k` that the duplicate policy and `ignore_missing_cues` leave
+    (`contribCues`).  `hno`: distinct outcome labels (so that `LW.get` at the
+    `i`-th label reads row `i`); `hnc`: distinct cue labels — not used by the
+    proof: the model looks a cue up at its FIRST position (`idxOf`), the code's
+    `OrderedDict` at its LAST; with distinct labels they agree. -/
+theorem activationMatrix_spec (p : DupPolicy) (ig : Bool) (w : LW R) (hno : w.outcomes.Nodup)
+    (hnc : w.cues.Nodup) (evs : List (List String)) (M : List (List R))
+    (h : activationMatrix p ig w evs = .ok M) :
+    M.length = evs.length ∧
+    ∀ k (hk : k < evs.length),
+      actEventErr p ig w.cues evs[k] = none ∧
+      (M.getD k []).length = w.outcomes.length ∧
+      ∀ i (hi : i < w.outcomes.length),
+        (M.getD k []).getD i 0 = sumOver (w.get w.outcomes[i]) (contribCues p w.cues evs[k]) := by
+  have hacc := activationMatrix_ok_accepts p ig w evs M h
+  rw [activationMatrix_ok_of p ig w evs hacc] at h
+  simp only [Except.ok.injEq] at h
+  subst h
+  refine ⟨by simp, ?_⟩
+  intro k hk
+  refine ⟨hacc _ (List.getElem_mem hk), ?_, ?_⟩
+  · rw [List.getD_eq_getElem?_getD, List.getElem?_map, List.getElem?_eq_getElem hk]
+    simp [actColumn]
+  · intro i hi
+    rw [List.getD_eq_getElem?_getD (l := List.map _ evs), List.getElem?_map, List.getElem?_eq_getElem hk]
+    simp only [Option.map_some, Option.getD_some]
+    exact actColumn_eq_sum w hno _ (contribCues_mem p w.cues evs[k]) i hi
+
+/-! ## the learners and the modelled activation -/
+
+/-- **one further `dict_ndl` step and the dict path of `activation()`**: learning
+    ONE more event `e` (policy-processed: `e'`) from the weight dict `W` changes
+    the weight between outcome `o` and cue `c` by
+    `multiplicity(c) · α(c) · β · (target − a)`, where `a` is the activation the
+    dict path of `activation()` (`dictRowAct`, defaultdict rows) computes for
+    `o` and the cues of the event from `W` -/
+theorem dictNdl_step_delta (p : DupPolicy) (α : String → R) (β₁ β₂ lam : R) (W : WDict String String R)
+    (e e' : Event String String) (hp : applyPolicy p e = some e') :
+    ∃ W', dictNdl p α β₁ β₂ lam W [e] = some W' ∧
+      ∀ o a, dictRowAct false (wdRow W o) e'.cues = .ok a → ∀ c,
+        wdAbs W' o c - wdAbs W o c
+          = (e'.cues.count c : R) * (α c *
+              (if o ∈ e'.outcomes then β₁ * (lam - a) else β₂ * (0 - a))) := by
+  have hpa : applyPolicyAll p [e] = some [e'] := by simp [applyPolicyAll, hp]
+  obtain ⟨W', h1, h2⟩ := dictNdl_eq_spec p α β₁ β₂ lam W [e] [e'] hpa
+  refine ⟨W', h1, ?_⟩
+  intro o a ha c
+  rw [dictRowAct_eq_sum] at ha
+  simp only [Except.ok.injEq] at ha
+  rw [h2]
+  show rwStep α β₁ β₂ lam (wdAbs W) e' o c - wdAbs W o c = _
+  rw [step_delta, ← ha]
+  rfl
+
+/-- **one further `ndl.ndl` step and the matrix path of `activation()`**: continuing
+    `ndl.ndl` from the labelled matrix `w` over ONE event `e` (policy-processed:
+    `e'`, all of whose cues are labels of `w`) changes the weight between the
+    `i`-th outcome and cue `c` by `multiplicity(c) · α · β · (target − col[i])`,
+    where `col` is the column `activation(…, remove_duplicates=False)` computes
+    from `w` for the cues of `e'`.  Hypotheses as in `ndlModel_continue_eq_spec`
+    plus duplicate-free labels. -/
+theorem ndlModel_step_delta (magic version : Nat) (hm : magic < 4294967296) (hv : version < 4294967296)
+    (cfg : NdlCfg) (hper : 2 ≤ cfg.perFile) (hjob : 1 ≤ cfg.perJob) (alpha β₁ β₂ lam : R)
+    (w : LW R) (hno : w.outcomes.Nodup) (hnc : w.cues.Nodup)
+    (e e' : Event String String) (hp : applyPolicy cfg.policy e = some e')
+    (hfit : Fits32With w [e]) (hin : ∀ c ∈ e'.cues, c ∈ w.cues) :
+    ∃ r col, ndlModel magic version cfg alpha β₁ β₂ lam (some w) [e] = .ok (r, 1) ∧
+      activationMatrix .keep false w [e'.cues] = .ok [col] ∧
+      ∀ i (hi : i < w.outcomes.length) c,
+        r.get w.outcomes[i] c - w.get w.outcomes[i] c
+          = (e'.cues.count c : R) * (alpha *
+              (if w.outcomes[i] ∈ e'.outcomes then β₁ * (lam - col.getD i 0)
+               else β₂ * (0 - col.getD i 0))) := by
+  have hpa : applyPolicyAll cfg.policy [e] = some [e'] := by simp [applyPolicyAll, hp]
+  obtain ⟨r, h1, h2⟩ := ndlModel_continue_eq_spec magic version hm hv cfg hper hjob alpha β₁ β₂ lam
+    w [e] [e'] hpa hfit
+  have hacc : ∀ cues ∈ [e'.cues], actEventErr .keep false w.cues cues = none := by
+    intro cues hc
+    rw [List.mem_singleton] at hc
+    subst hc
+    unfold actEventErr
+    have : e'.cues.any (fun c => !w.cues.contains c) = false := by
+      apply List.any_eq_false.mpr
+      intro c hc
+      simpa using hin c hc
+    simp only [reduceCtorEq, false_and, if_false, this, Bool.false_eq_true, and_false]
+  have hact := activationMatrix_ok_of .keep false w [e'.cues] hacc
+  have hcc : contribCues .keep w.cues e'.cues = e'.cues := by
+    unfold contribCues
+    apply List.filter_eq_self.mpr
+    intro c hc
+    simpa using hin c hc
+  refine ⟨r, actColumn w (e'.cues.map (w.cues.idxOf ·)), h1, ?_, ?_⟩
+  · rw [hact, List.map_singleton, hcc]
+  · intro i hi c
+    rw [h2, actColumn_eq_sum w hno e'.cues hin i hi]
+    show rwStep (fun _ => alpha) β₁ β₂ lam (fun o c => w.get o c) e' w.outcomes[i] c - _ = _
+    rw [step_delta]
 
 end Pyndl
